@@ -135,9 +135,20 @@ def check(ctx):
             return "fresh" if not c.is_exc else "stale"
         if e == "h":
             return "stale"
+        if e == "aw" and st == "fresh":
+            return Bad("a suspension point other than the flush of pending output follows the successful SSL call: a cancellation delivered "
+                       "there discards what the call has already taken out of the SSL object (plaintext read, or the fact that the data was written)")
         return st
 
-    ctx.paths("R17-a", pump, [("ok", f"{res} = $F($*A)"), ("h", [lambda frag, node: node.kind == "except"])], step_ok, "stale",
+    def other_await(frag, node):
+        if frag is None:
+            return False
+        for x in [frag] + list(own_walk(frag)):
+            if isinstance(x, ast.Await) and not (isinstance(x.value, ast.Call) and ast.unparse(x.value.func) == "self.transport_stream.send"):
+                return True
+        return False
+
+    ctx.paths("R17-a", pump, [("ok", f"{res} = $F($*A)"), ("h", [lambda frag, node: node.kind == "except"]), ("aw", [other_await])], step_ok, "stale",
               lambda kind, st, facts: ("the pump returns although the last SSL call did not succeed (a handler ran since)" if kind == "return" and st != "fresh" else None),
               instance="the result is returned only after a successful call")
     # EOF on the transport is recorded and the call retried
